@@ -540,10 +540,13 @@ pub enum SysOp {
 pub struct SysCase {
     pub tape: Vec<u8>,
     pub ops: Vec<SysOp>,
+    /// fast loading enabled in the settings: a request issued while the deck stands still is served by the trap, a
+    /// request issued while it plays by the ROM in real time — both consume the same tape, in order
+    pub fastload: bool,
 }
 
 pub fn sys_text(c: &SysCase) -> String {
-    let mut s = format!("system tape={}", if c.tape.is_empty() { "-".to_string() } else { hex(&c.tape) });
+    let mut s = format!("system tape={}{}", if c.tape.is_empty() { "-".to_string() } else { hex(&c.tape) }, if c.fastload { " fl=1" } else { "" });
     for o in &c.ops {
         s.push_str(" ; ");
         match o {
@@ -571,11 +574,15 @@ pub fn parse_sys(s: &str) -> SysCase {
     let mut parts = s.split(';').map(|x| x.trim());
     let head = parts.next().unwrap_or("");
     let mut tape = vec![];
+    let mut fastload = false;
     for kv in head.split_whitespace() {
         if let Some(h) = kv.strip_prefix("tape=") {
             if h != "-" {
                 tape = unhex(h);
             }
+        }
+        if kv == "fl=1" {
+            fastload = true;
         }
     }
     let mut ops = vec![];
@@ -599,7 +606,7 @@ pub fn parse_sys(s: &str) -> SysCase {
             _ => {}
         }
     }
-    SysCase { tape, ops }
+    SysCase { tape, ops, fastload }
 }
 
 #[derive(Clone, Debug, PartialEq)]
@@ -643,7 +650,7 @@ pub fn sys_idle(e: &mut Emu, frames: usize) {
 /// Runs the ops on a real-time emulator (fast load off; the tape deck is operated through
 /// Emulator::play_tape/stop_tape/rewind_tape) and returns the observation of every load.
 pub fn sys_realtime(c: &SysCase) -> Vec<(Req, Vec<u8>, LoadObs)> {
-    let mut e = c10::new_emu(false, &c.tape, false);
+    let mut e = c10::new_emu(false, &c.tape, c.fastload);
     let maxblk = c.tape.len();
     let mut out = vec![];
     for o in &c.ops {
@@ -792,7 +799,43 @@ pub fn gen_sys_case(rng: &mut Rng, idx: u64) -> SysCase {
         };
         ops.push(SysOp::Load(Req { a, load, ix: rng.range(0x4000, 0xF000) as u16, de, fill }));
     }
-    SysCase { tape: encode(&blocks), ops }
+    SysCase { tape: encode(&blocks), ops, fastload: false }
+}
+
+/// Fast loading and real-time play on one tape: requests served by the trap (deck standing still) and by the ROM
+/// (deck playing) alternate; every request must get the next block of the tape.
+pub fn mixed_cases(rng: &mut Rng, n: u64) -> Vec<(SysCase, &'static str)> {
+    let mut out = vec![];
+    for idx in 0..n {
+        let mk = |rng: &mut Rng, tag: u8, len: usize| {
+            let mut b = vec![0xFF, tag];
+            b.extend(rng.bytes(len));
+            let x = b.iter().fold(0u8, |a, v| a ^ v);
+            b.push(x);
+            b
+        };
+        let long = idx % 3 == 2;
+        let (l1, l2, l3) = (if long { rng.range(130, 180) as usize } else { rng.range(3, 10) as usize }, rng.range(3, 10) as usize, rng.range(3, 10) as usize);
+        let b1 = mk(rng, 0x11, l1);
+        let b2 = mk(rng, 0x22, l2);
+        let b3 = mk(rng, 0x33, l3);
+        let tape = encode(&[b1.clone(), b2.clone(), b3.clone()]);
+        let ix = rng.range(0x5000, 0xE000) as u16;
+        let load = |b: &Vec<u8>| SysOp::Load(Req { a: 0xFF, load: true, ix, de: (b.len() - 2) as u16, fill: Fill::None });
+        let (ops, name): (Vec<SysOp>, &'static str) = match idx % 4 {
+            // a request for a header (A=0x00) hits the data block: the trap gives up on the flag byte with the block
+            // half read; then the deck is started and the next block is loaded in real time
+            0 => (vec![SysOp::Load(Req { a: 0x00, load: true, ix, de: 17, fill: Fill::None }), SysOp::Play, load(&b2), SysOp::Stop, load(&b3)], "trap gives up mid-block; play"),
+            // a short request (DE smaller than the block) by the trap, then real time
+            1 => (vec![SysOp::Load(Req { a: 0xFF, load: true, ix, de: 1, fill: Fill::None }), SysOp::Play, load(&b2), SysOp::Stop, load(&b3)], "trap short request; play"),
+            // block 1 in real time, the deck stopped in the pause behind it, blocks 2 and 3 by the trap
+            2 => (vec![SysOp::Play, load(&b1), SysOp::Idle(rng.range(1, 30) as usize), SysOp::Stop, load(&b2), load(&b3)], "play; stop in the pause; trap"),
+            // trap, real time, trap
+            _ => (vec![load(&b1), SysOp::Play, load(&b2), SysOp::Idle(rng.range(1, 20) as usize), SysOp::Stop, load(&b3)], "trap; play; stop in the pause; trap"),
+        };
+        out.push((SysCase { tape, ops, fastload: true }, name));
+    }
+    out
 }
 
 fn report_sys_failure(rep: &mut Report, c: &SysCase, d: Dis) {
@@ -1299,6 +1342,14 @@ classes plus distinct (program, machine, code address, block class) of EAR runs"
             rep.sample(J::s(truncate(&sys_text(&c), 300)));
         }
         rep.count("cases", "system (real ROM)");
+        if let Some(d) = run_sys_case(&mut m10, &c, &c.tape.clone(), "C11", Some(&mut rep)) {
+            report_sys_failure(&mut rep, &c, d);
+        }
+    }
+    // 2b. the same tape served in turn by the fast-load trap (deck standing still) and by the ROM in real time
+    let mut rng = Rng::new(o.seed ^ 0x5C1B);
+    for (c, name) in mixed_cases(&mut rng, o.n(8, 120)) {
+        rep.count("cases", format!("system (trap and real time mixed): {}", name));
         if let Some(d) = run_sys_case(&mut m10, &c, &c.tape.clone(), "C11", Some(&mut rep)) {
             report_sys_failure(&mut rep, &c, d);
         }
